@@ -570,6 +570,25 @@ class Interp:
                 yield from self.getattr(o, self.mangle(node.attr, s), s, node)
 
     def getattr(self, o, name, st, node=None):
+        if isinstance(o, tuple) and len(o) == 3 and o[0] == 'super':
+            _, dc, selfv = o
+            cls = selfv.cls if isinstance(selfv, (SObj, SRec)) else (selfv if isinstance(selfv, type) else type(selfv))
+            mro = cls.__mro__
+            for k in mro[mro.index(dc) + 1:]:
+                if name in k.__dict__:
+                    a = k.__dict__[name]
+                    if isinstance(a, types.FunctionType):
+                        yield SBound(a, selfv), st
+                    elif isinstance(a, (staticmethod, classmethod)):
+                        yield (a.__func__ if isinstance(a, staticmethod) else SBound(a.__func__, cls)), st
+                    elif isinstance(a, property):
+                        yield from self.call_value(SBound(a.fget, selfv), [], {}, st, node)
+                    else:
+                        # slot wrappers of object / BaseException (__init__ etc.)
+                        yield SBound(('supermethod', (k, name)), selfv), st
+                    return
+            yield self.raise_py(AttributeError, name), st
+            return
         if isinstance(o, Undefined):
             self.err(node, f'use of possibly-undefined local {o.name}')
         if isinstance(o, SObj):
@@ -595,9 +614,9 @@ class Interp:
             try:
                 a, k = class_lookup(o.cls, name)
             except AttributeError:
-                if issubclass(o.cls, BaseException):
-                    yield self.raise_py(AttributeError, name), st
-                    return
+                if getattr(o, 'described', False) and not name.startswith('__'):
+                    self.err(node, f'contract does not bind: field {name!r} is not in the shape given for '
+                                   f'{o.cls.__name__} object {o.label}')
                 yield self.raise_py(AttributeError, name), st
                 return
             if isinstance(a, property):
@@ -609,6 +628,9 @@ class Interp:
             elif isinstance(a, classmethod):
                 yield SBound(a.__func__, o.cls), st
             elif isinstance(a, types.MemberDescriptorType):
+                if getattr(o, 'described', False):
+                    self.err(node, f'contract does not bind: slot {name!r} is not in the shape given for '
+                                   f'{o.cls.__name__} object {o.label}')
                 yield self.raise_py(AttributeError, name), st
             else:
                 yield self.lift(a, st), st
@@ -791,6 +813,8 @@ class Interp:
     def ite(self, c, a, b):
         if isinstance(c, bool):
             return a if c else b
+        if a is b or (not is_sym(a) and not is_sym(b) and same_value(a, b)):
+            return a
         if isinstance(a, SRec) and isinstance(b, SRec) and a.cls is b.cls:
             return SRec(a.cls, {k: self.ite(c, a.vals[k], b.vals[k]) for k in a.vals})
         if isinstance(a, tuple) and isinstance(b, tuple) and len(a) == len(b):
@@ -1128,18 +1152,12 @@ class Interp:
                         self.err(node, 'raw input string not used through .strip().lower()')
                 elif kind == 'supermethod':
                     cls, name2 = name
-                    try:
-                        m, k = class_lookup(cls, name2)
-                    except AttributeError:
-                        yield self.raise_py(AttributeError, name2), st
-                        return
-                    if m is object.__init__ or m is BaseException.__init__ or m is Exception.__init__ \
-                            or getattr(m, '__objclass__', None) in (object, BaseException, Exception, RuntimeError):
+                    if name2 == '__init__':
                         if isinstance(fv.selfv, SObj) and issubclass(fv.selfv.cls, BaseException):
                             fv.selfv.fields['args'] = tuple(args)
                         yield None, st
                         return
-                    yield from self.call_value(SBound(m, fv.selfv), args, kwargs, st, node)
+                    self.err(node, f'builtin super method {name2}')
                 else:
                     self.err(node, f'bound {kind}')
                 return
